@@ -237,7 +237,10 @@ def do_check(mod, modname, args, root):
     stuck_reported = []
     if getattr(agg, 'stuck', None):
         # runs that kept a worker busy until the batch's hard timeout: each is confirmed in a process of its own
-        for key in sorted(set(agg.stuck)):
+        suspects = sorted(set(agg.stuck))
+        if len(suspects) > 3:
+            print(f'{len(suspects)} workers were sitting in runs that did not return: {suspects}; the first 3 are confirmed in isolation')
+        for key in suspects[:3]:
             case = regenerate(mod, tier, root, key)
             if case is None:
                 continue
